@@ -6,7 +6,7 @@ from ..layouts import zoo
 from ..nd import prod
 from ..plans import sum_plan, plan_term
 from ..pyfloat import FP, finite
-from .numcommon import mk_num_case, parse_num, model_ints, fval, mk_alias_case, alias_pairs
+from .numcommon import mk_num_case, parse_num, model_ints, fval, mk_alias_case, alias_pairs, plan_of
 from .c06 import tab_term
 
 SEL1 = {"entropy": 7}
@@ -192,7 +192,7 @@ class C10(Prop):
         tabs = "%s []" % tab_term(getattr(case, "ln_tab", []))
         d = zlist(model_ints(et, case.vals[0]))
         if case.routine == "entropy":
-            return "%s_stat1 %s 7 %s %s 0" % (et, tabs, plan_term(sum_plan(case._lays[0])), d)
+            return "%s_stat1 %s 7 %s %s 0" % (et, tabs, plan_of(case, 0), d)
         w = zlist(model_ints(et, case.vals[1]))
         return "%s_stat2 %s %d (PMem []) %s %s 0" % (et, tabs, SEL2[case.routine], d, w)
 
